@@ -62,6 +62,11 @@ def snapshot_log():
     return [list(x) for x in LOG], [list(x) for x in EXTRA]
 
 
+def _dump_to(p):
+    with open(p, "w") as f:
+        json.dump({"log": LOG, "extra": EXTRA}, f)
+
+
 def _dump():
     p = os.environ.get("VERIF_REC_FILE")
     if p:
